@@ -11,6 +11,7 @@ import (
 	"strings"
 
 	"github.com/cloudwego/gopkg/bufiox"
+	"github.com/cloudwego/gopkg/protocol/thrift"
 	"github.com/cloudwego/gopkg/protocol/ttheader"
 )
 
@@ -572,6 +573,9 @@ func checkC06(c *Ctx) {
 	c.rule = "MC: every admissible frame of a bounded parameter domain (entry orders, ACL token, every padding residue) parses back to its parameters and has the computed info size; all 65536 flags. TRACE: parameter sets (all flags (quick: stride 97), every padding residue, info sizes 65515..65540 stepping by 1 around the 65536 limit, 64KiB-scale values, unsupported protocol ids, random maps with arbitrary bytes and the ACL key) through EncodeToBytes and Encode over a stream-backed writer (tth_enc: error iff InfoSize > 65536, layout, size field, written = header length, Parse(frame) = param) and then DecodeFromBytes / Decode over bytes- and stream-backed readers under every fragmentation with a pattern payload behind the header (tth_dec: params, HeaderLen, PayloadLen arithmetic, ReadLen, IsTTHeader/IsStreaming)."
 	c.MC("MC_TTHeader.tla", "MC_TTHeader.cfg", 4)
 	c.TraceCheck(famTTHC06, tthEncCases(c))
+	// streams of 1..5 framed messages (header + message envelope + Base/BaseResp) read back from a fragmenting
+	// reader: every payload must be delimited exactly by total + 4 - header length
+	c.TraceCheck(famFraming, framingCases(c))
 	c.Assume("nil and empty decoded maps are identified (the encoder writes no section for an empty map)")
 }
 
@@ -584,4 +588,121 @@ func checkC10(c *Ctx) {
 func init() {
 	checks["C06"] = checkC06
 	checks["C10"] = checkC10
+}
+
+// ---- a stream of framed messages (TTHeader o message envelope o struct) --------------------------------
+
+type FramingCase struct {
+	Seed   int64 `json:"seed"`
+	N      int   `json:"n"`
+	Chunks []int `json:"chunks"`
+	Wd     bool  `json:"wd"`
+}
+
+func runFramingCase(raw json.RawMessage, w *TraceWriter) {
+	var c FramingCase
+	if err := json.Unmarshal(raw, &c); err != nil {
+		panic(err)
+	}
+	rng := rand.New(rand.NewSource(c.Seed))
+	ctx := context.Background()
+	var stream []byte
+	var structs []StructCase
+	seedSet := map[int]bool{249: true}
+	for i := 0; i < c.N; i++ {
+		t := randTTH(rng, false)
+		p := ttheader.EncodeParam{Flags: ttheader.HeaderFlags(t.Flags), SeqID: int32(t.Seq), ProtocolID: ttheader.ProtocolID(t.Proto)}
+		if len(t.Int) > 0 {
+			p.IntInfo = map[uint16]string{}
+			for _, kv := range t.Int {
+				p.IntInfo[uint16(kv.K)] = string(kv.V.Bytes())
+			}
+		}
+		if len(t.Str) > 0 {
+			p.StrInfo = map[string]string{}
+			for _, kv := range t.Str {
+				p.StrInfo[string(kv.K.Bytes())] = string(kv.V.Bytes())
+			}
+		}
+		for _, sd := range t.seeds() {
+			seedSet[sd] = true
+		}
+		hdr, err := ttheader.EncodeToBytes(ctx, p)
+		if err != nil {
+			continue
+		}
+		sc := randStruct(rng, []string{"Base", "BaseResp"}[i%2], i%3 == 0)
+		ctr := rng.Intn(100)
+		sc.Method = randStr(rng, &ctr, false)
+		if len(sc.Method.Bytes()) == 0 {
+			sc.Method = StrSpec{Lit: []int{'m'}}
+		}
+		sc.Seq = int(int32(rng.Uint32()))
+		for _, sd := range sc.seeds() {
+			seedSet[sd] = true
+		}
+		payload, err := thrift.MarshalFastMsg(string(sc.Method.Bytes()), thrift.CALL, int32(sc.Seq), sc.build())
+		if err != nil {
+			continue
+		}
+		binary.BigEndian.PutUint32(hdr, uint32(len(hdr)+len(payload)-4))
+		stream = append(stream, hdr...)
+		stream = append(stream, payload...)
+		structs = append(structs, sc)
+	}
+	var seeds []int
+	for s := range seedSet {
+		seeds = append(seeds, s)
+	}
+	sort.Ints(seeds)
+	// read the frames back from a fragmenting stream: Decode, then exactly PayloadLen bytes, then Release
+	rd := bufiox.NewDefaultReader(&dataSource{data: stream, chunks: c.Chunks, wd: c.Wd})
+	var frames []string
+	for i := range structs {
+		fr := `{"ok":false,"hlen":0,"plen":0,"seq":0,"method":[],"schema":"Base","val":{}}`
+		func() {
+			defer func() { recover() }()
+			dp, err := ttheader.Decode(ctx, rd)
+			if err != nil {
+				return
+			}
+			pay, err := rd.Next(dp.PayloadLen)
+			if err != nil {
+				return
+			}
+			dst := fresh(structs[i].Schema)
+			m, seq, err := thrift.UnmarshalFastMsg(pay, dst)
+			if err != nil {
+				return
+			}
+			fr = fmt.Sprintf(`{"ok":true,"hlen":%d,"plen":%d,"seq":%d,"method":%s,"schema":%q,"val":%s}`, dp.HeaderLen, dp.PayloadLen, seq,
+				projectBytes([]byte(m), seeds), structs[i].Schema, readValJSON(dst, seeds))
+			rd.Release(nil)
+		}()
+		frames = append(frames, fr)
+	}
+	w.Ev("tth_stream", "in", projectBytes(stream, seeds), "frames", Raw("["+strings.Join(frames, ",")+"]"))
+}
+
+var famFraming = Register(&Family{Name: "tth-stream", Spec: "Trace_TTHeader", Cfg: "Trace_TTHeader.cfg", Run: runFramingCase,
+	Sig: func(raw json.RawMessage, line string) string { return "tth/stream" }, Env: []string{"VPROP=C06"}})
+
+func framingCases(c *Ctx) []json.RawMessage {
+	var out []json.RawMessage
+	rng := rand.New(rand.NewSource(c.Seed*86028121 + 66))
+	for i := 0; i < c.Pick(300, 6000); i++ {
+		fc := FramingCase{Seed: rng.Int63(), N: 1 + rng.Intn(5), Wd: rng.Intn(2) == 0}
+		switch rng.Intn(4) {
+		case 0:
+			fc.Chunks = []int{-1}
+		case 1:
+			fc.Chunks = []int{1 + rng.Intn(40)}
+		case 2:
+			fc.Chunks = []int{4096, 0, 1 + rng.Intn(300)}
+		default:
+			fc.Chunks = []int{1 + rng.Intn(9000)}
+		}
+		out = append(out, mustJSON(fc))
+	}
+	return out
 }
